@@ -50,8 +50,8 @@ if [ "${1:-}" = selfcheck ]; then
   # and without the cache must produce the same set of terminal observations
   rc=0
   while read -r id only bound; do
-    a=$("$0" "$id" quick -only "$only" -bound "$bound" 2>&1 | grep "outcome-set digest")
-    b=$(VERIF_NOCACHE=1 VERIF_OUT="$V/.build/selfcheck.$$" "$0" "$id" quick -only "$only" -bound "$bound" 2>&1 | grep "outcome-set digest")
+    a=$(VERIF_BUDGET_S=1200 "$0" "$id" quick -only "$only" -bound "$bound" 2>&1 | grep "outcome-set digest")
+    b=$(VERIF_BUDGET_S=1200 VERIF_NOCACHE=1 VERIF_OUT="$V/.build/selfcheck.$$" "$0" "$id" quick -only "$only" -bound "$bound" 2>&1 | grep "outcome-set digest")
     if [ -n "$a" ] && [ "$a" = "$b" ]; then echo "selfcheck $id [$only] bound $bound: cached == uncached ($a)"; else echo "selfcheck $id [$only] bound $bound: MISMATCH cached='$a' uncached='$b'"; rc=2; fi
   done <<'EOT'
 C06 aq(2,B)/2w 3
